@@ -8,6 +8,7 @@ mod c18;
 mod c19;
 mod fresh;
 mod maproot;
+mod nested;
 
 thread_local! { pub static LAST_PANIC_LOC: std::cell::RefCell<String> = const { std::cell::RefCell::new(String::new()) }; }
 
@@ -104,6 +105,7 @@ fn main() {
         "c19" => c19::run(thorough, only.as_deref()),
         "maproot" => maproot::run(thorough, only.as_deref()),
         "fresh" => fresh::run(thorough, only.as_deref()),
+        "nested" => nested::run(thorough, only.as_deref()),
         _ => {
             eprintln!("unknown grid {which}");
             std::process::exit(2)
